@@ -393,13 +393,16 @@ fn check_tokens(sel: u64, case: &Case, ctx: &mut Ctx) {
     int_tok!(i8, 0, -1, i8::MIN, i8::MAX, w as i8);
     int_tok!(i16, 0, -1, i16::MIN, i16::MAX, w as i16);
     int_tok!(i32, 0, -1, i32::MIN, i32::MAX, w as i32);
-    int_tok!(i64, 0, -1, i64::MIN, i64::MAX, w as i64);
-    int_tok!(i128, 0, -1, i128::MIN, i128::MAX, w as i128);
+    int_tok!(i64, 0, -1, i64::MIN, i64::MAX, w as i64, 1i64 << 31, 1i64 << 32, -(1i64 << 31) - 1, (w as i64) >> ((sel % 63) as u32));
+    int_tok!(i128, 0, -1, i128::MIN, i128::MAX, w as i128,
+        1i128 << 63, (1i128 << 63) - 1, (1i128 << 64) - 1, 1i128 << 64, -(1i128 << 63), -(1i128 << 63) - 1, -(1i128 << 64), -(1i128 << 64) + 1,
+        1i128 << 32, -(1i128 << 31), (w as i128) >> ((sel % 127) as u32));
     int_tok!(u8, 0, 1, u8::MAX, w as u8);
     int_tok!(u16, 0, 1, u16::MAX, w as u16);
     int_tok!(u32, 0, 1, u32::MAX, w as u32);
-    int_tok!(u64, 0, 1, u64::MAX, w as u64);
-    int_tok!(u128, 0, 1, u128::MAX, (1u128 << 127) + 5, w);
+    int_tok!(u64, 0, 1, u64::MAX, w as u64, 1u64 << 63, (1u64 << 63) - 1, 1u64 << 32, (w as u64) >> ((sel % 63) as u32));
+    int_tok!(u128, 0, 1, u128::MAX, (1u128 << 127) + 5, w,
+        1u128 << 63, (1u128 << 63) - 1, (1u128 << 64) - 1, 1u128 << 64, 1u128 << 127, (1u128 << 127) - 1, 1u128 << 32, w >> ((sel % 127) as u32));
     // floats: exact binary value (same oracle as C14) or an error for non-finite
     let pw = |k: i32| 2f64.powi(k);
     let f64s = [0.1f64, 1e23, 29998999.0001, -2.5, f64::MAX, f64::MIN_POSITIVE, 5e-324, f64::from_bits(sel), f64::NAN, f64::INFINITY, -0.0,
